@@ -75,8 +75,20 @@ def mk_atom(dom, prefix='a', iso='sym', h='sym', ring_u=RING_U, z=None, cls=None
     return a
 
 
-def mk_query(kind, dom, prefix='q', iso='sym', ring_mode='set', ring_u=RING_U, cls=None):
-    """kind: 'Q' QueryElement | 'A' AnyElement | 'L' ListElement | 'M' AnyMetal"""
+def _qset(name, universe, dom, key, empties):
+    """symbolic subset; with `empties` given the emptiness is decided by the shape: () or a set required non-empty"""
+    if empties is None:
+        return SymSmallSet(name, universe)
+    if key in empties:
+        return ()
+    s = SymSmallSet(name, universe)
+    dom.append(s.nonempty())
+    return s
+
+
+def mk_query(kind, dom, prefix='q', iso='sym', ring_mode='set', ring_u=RING_U, cls=None, empties=None, rad=None):
+    """kind: 'Q' QueryElement | 'A' AnyElement | 'L' ListElement | 'M' AnyMetal; empties: None (emptiness symbolic) or the set of
+    attribute keys ('n','y','x','h') that are the empty tuple in this shape; rad: None (symbolic) or concrete bool"""
     Element, QueryElement, AnyElement, ListElement, AnyMetal = _classes()
     if kind == 'Q':
         q = object.__new__(cls or sym_query_class())
@@ -92,14 +104,14 @@ def mk_query(kind, dom, prefix='q', iso='sym', ring_mode='set', ring_u=RING_U, c
         q._elements = ()
     else:
         q = object.__new__(AnyMetal)
-    q._neighbors = SymSmallSet(f'{prefix}n', range(15))
-    q._hybridization = SymSmallSet(f'{prefix}y', range(1, 5))
+    q._neighbors = _qset(f'{prefix}n', range(15), dom, 'n', empties)
+    q._hybridization = _qset(f'{prefix}y', range(1, 5), dom, 'y', empties)
     q._masked = False
     if kind != 'M':
         q._charge = sym_int(f'{prefix}_ch', -4, 4, dom)
-        q._is_radical = sym_bool(f'{prefix}_rad')
-        q._heteroatoms = SymSmallSet(f'{prefix}x', range(15))
-        q._implicit_hydrogens = SymSmallSet(f'{prefix}h', range(15))
+        q._is_radical = sym_bool(f'{prefix}_rad') if rad is None else rad
+        q._heteroatoms = _qset(f'{prefix}x', range(15), dom, 'x', empties)
+        q._implicit_hydrogens = _qset(f'{prefix}h', range(15), dom, 'h', empties)
         q._ring_sizes = () if ring_mode == 'none' else (0,) if ring_mode == 'zero' else SymSmallSet(f'{prefix}r', ring_u)
         q._stereo = None
     return q
@@ -109,6 +121,8 @@ def mk_query(kind, dom, prefix='q', iso='sym', ring_mode='set', ring_u=RING_U, c
 
 def _member_or_unspecified(qset, val):
     """unspecified (empty) or value is a member; val None (unknown hydrogen count) is a member of nothing"""
+    if isinstance(qset, tuple) and not qset:
+        return z3.BoolVal(True)
     if val is None:
         return z3.Not(qset.nonempty())
     return z3.Or(z3.Not(qset.nonempty()), zbool(qset.__contains__(val)))
@@ -124,7 +138,7 @@ def spec_match(kind, q, a):
         conj.append(zbool(q.__dict__['atomic_numbers'].__contains__(a.atomic_number)))
     if kind != 'M':
         conj.append(q._charge.z == a._charge.z)
-        conj.append(q._is_radical.z == a._is_radical.z)
+        conj.append(zbool(q._is_radical) == a._is_radical.z)
         conj.append(_member_or_unspecified(q._implicit_hydrogens, a._implicit_hydrogens))
         conj.append(_member_or_unspecified(q._heteroatoms, a._heteroatoms))
         rs = q._ring_sizes
